@@ -65,14 +65,14 @@ def _mk():
     add('condorcet_winner', 'pairwise', 'sel', lambda: cd.CondorcetWinner(), seats=False)
     add('smith_set', 'pairwise', 'sel', lambda: cd.SmithSet(), seats=False)
     add('schwartz_set', 'pairwise', 'sel', lambda: cd.SchwartzSet(), seats=False)
-    # score votes (aggregate_one materialises one element per voter: keep scale factors small)
+    # score votes (the aggregation works on the (score -> count) dictionaries since fixes/C12-score-counted: every scale factor)
     for fn in ('sum', 'mean', 'median_low'):
-        add('score_' + fn, 'score', 'sel', (lambda fn=fn: card.ScoreVoting(fn)), family='score', max_k=1000)
-    add('score_sum_unscored0', 'score', 'sel', lambda: card.ScoreVoting('sum', unscored_value=0), family='score', max_k=1000)
-    add('mj_plus', 'score', 'sel', lambda: card.MajorityJudgment(tie_breaking='plus'), max_k=1000)
-    add('mj_default', 'score', 'sel', lambda: card.MajorityJudgment(), max_k=1000)
-    add('star', 'score', 'sel', lambda: card.STAR(), max_k=1000)
-    add('allocated_score', 'score', 'sel', lambda: card.AllocatedScoreSelector('hare'), max_k=1000)
+        add('score_' + fn, 'score', 'sel', (lambda fn=fn: card.ScoreVoting(fn)), family='score')
+    add('score_sum_unscored0', 'score', 'sel', lambda: card.ScoreVoting('sum', unscored_value=0), family='score')
+    add('mj_plus', 'score', 'sel', lambda: card.MajorityJudgment(tie_breaking='plus'))
+    add('mj_default', 'score', 'sel', lambda: card.MajorityJudgment())
+    add('star', 'score', 'sel', lambda: card.STAR())
+    add('allocated_score', 'score', 'sel', lambda: card.AllocatedScoreSelector('hare'))
     return R
 
 
